@@ -157,7 +157,10 @@ func (v *ApiValidator) adjustDiagsForConflictingEntry(
 		diag := diagnostics.NewEntityDiagnostic(receiverDiagKind, entry.Meta.Receiver.Name)
 		diag.AddDiagnostic(receiverResolvedDiag)
 		relevantDiag.AddChild(&diag)
-	} else {
+	} else if !slices.ContainsFunc(receiverDiag.Diagnostics, func(existing diagnostics.ResolvedDiagnostic) bool {
+		return existing.Equal(receiverResolvedDiag)
+	}) {
+		// A route conflicting with several textually identical routes yields identical diagnostics - report once
 		receiverDiag.AddDiagnostic(receiverResolvedDiag)
 	}
 
